@@ -555,3 +555,86 @@ def tied_first(rng):
     U = grids.universe(D)
     big = [sorted(U)] if rng.random() < .6 else [sorted(U[:len(U) // 2 + 1]), sorted(U[len(U) // 2 + 1:])]
     return [[b for b in big if b]] + D
+
+
+def wide_cases(rng, count, cfgs, flags=(1,), width=(1001, 1040), complete_only=False):
+    """datasets of a thousand elements and more: a small 'hard' core (corpus of datasets on which the local search ends
+    in different local optima depending on the start) between three common leading elements and a long common tail, so
+    that all the rankings agree on their first and last elements and differ only in the middle"""
+    import json
+    import os
+    cdir = os.path.join(os.path.dirname(os.path.dirname(__file__)), "corpus")
+    # start_sensitive: complete datasets whose FIRST ranking is a start from which the local search ends above another
+    # input ranking (picked with the library by tools/find_start_sensitive.py; the order of the rankings matters)
+    sens = json.load(open(os.path.join(cdir, "start_sensitive.json")))
+    # the same number of buckets in every ranking: the common tail then has the same bucket indices everywhere
+    sens = [e for e in sens if len({len(r) for r in e["D"]}) == 1] or sens
+    corpus = json.load(open(os.path.join(cdir, "hard_local.json")))
+    out = []
+    k = 0
+    while len(out) < count and k < 50 * count:
+        k += 1
+        if k % 4:
+            ent = sens[rng.randrange(len(sens))]
+            D = [list(r) for r in ent["D"]]
+        else:
+            ent = corpus[rng.randrange(len(corpus))]
+            D = [list(r) for r in ent["D"] if r]
+            rng.shuffle(D)
+        U = grids.universe(D)
+        if len(D) < 2 or (complete_only and any(grids.dom(r) != U for r in D)):
+            continue
+        n = rng.randint(*width)
+        nc = len(U)
+        remap = {e: 3 + j + 1 for j, e in enumerate(U)}
+        tail = list(range(3 + nc + 1, n + 1))
+        tail_b = [[e] for e in tail] if rng.random() < .7 else [tail[:5]] + [[e] for e in tail[5:]]
+        wide = [[[1], [2], [3]] + [[remap[e] for e in b] for b in r] + tail_b for r in D]
+        for cfg in cfgs:
+            for flag in flags:
+                out.append({"n": n, "D": wide, "cfg": cfg, "flag": flag, "sch": list(HARD_SCHEMES[ent["sch"]]),
+                            "how": len(out), "off": [0, 0, 100][len(out) % 3], "form": len(out) % 4})
+    return out
+
+
+def wide_stage(name, prop, cases_fn, chunk=4):
+    from .. import widerun
+    return Stage(name, "Trace_Wide", widerun.run_wide, cases_fn, lambda r: r["out"] in ("consensus", "score"),
+                 widerun.init, aux={"prop": prop}, chunk=chunk, procs=8)
+
+
+def wide_score_cases(rng, count):
+    """a candidate with ties against wide rankings with ties and missing elements (C01 on a thousand elements)"""
+    out = []
+    for k in range(count):
+        n = rng.randint(1001, 1030)
+
+        def rk(missing):
+            elems = list(range(1, n + 1))
+            rng.shuffle(elems)
+            if missing:
+                elems = elems[:rng.randint(n // 2, n)]
+            r, cur = [], []
+            for e in elems:
+                cur.append(e)
+                if rng.random() < .7:
+                    r.append(cur)
+                    cur = []
+            if cur:
+                r.append(cur)
+            return r
+        D = [rk(True) for _ in range(rng.randint(1, 3))]
+        if not any(1 in b for r in D for b in r):
+            D[0].append([1])
+        c = rk(False)
+        out.append({"n": n, "D": D, "c": c, "cfg": "score", "sch": list([P_UNI5, P_PSE5, P_EXT, P_IND1][k % 4]), "how": k,
+                    "off": 0, "form": k % 4})
+    return out
+
+
+# schemes in which exactly ONE of the penalties that concern unranked elements is non-zero: a shortcut "this scheme ignores
+# unranked elements" that forgets one of them shows on exactly one of these
+ONEHOT = [([0, 1, 1, 0, 0, 3], [1, 1, 0, 0, 0, 0], 1), ([0, 1, 1, 0, 3, 0], [1, 1, 0, 0, 0, 0], 1),
+          ([0, 1, 1, 3, 3, 0], [1, 1, 0, 0, 0, 0], 1), ([0, 1, 1, 0, 0, 0], [1, 1, 0, 3, 3, 0], 1),
+          ([0, 1, 1, 0, 0, 0], [1, 1, 0, 0, 0, 3], 1), ([0, 2, 0, 0, 0, 5], [0, 0, 0, 0, 0, 0], 1),
+          ([0, 2, 0, 0, 0, 0], [0, 0, 0, 0, 0, 5], 1)]
